@@ -205,9 +205,9 @@ Print Assumptions C17_mapping_slot_lifetime_pinned_refuted.
    live under limit 1 — strictly sequential history *)
 Theorem C17_mapping_release_not_idempotent_refuted :
   exists sched,
-    let s := run _ _ (mstep_gen false Current 1) ({| counter := 0; live := 0 |}, [MStart true; MStart false; MStart false]) sched in
+    let s := run _ _ (mstep_gen false true Current 1) ({| counter := 0; live := 0 |}, [MStart true; MStart false; MStart false]) sched in
     live (fst s) = 2%Z /\ snd s = [MDone; MLive; MLive] /\
-    counter (fst (run _ _ (mstep_gen false Current 1) ({| counter := 0; live := 0 |}, [MStart true; MStart false; MStart false])
+    counter (fst (run _ _ (mstep_gen false true Current 1) ({| counter := 0; live := 0 |}, [MStart true; MStart false; MStart false])
                       (firstn 4 sched))) = (-1)%Z.
 Proof. exact mapping_release_not_idempotent_refuted. Qed.
 Print Assumptions C17_mapping_release_not_idempotent_refuted.
@@ -413,3 +413,49 @@ Theorem C17_quota_no_recheck_witness :
   fst s = {| q_n := 2; q_lock := false |} /\ map l_pc (snd s) = [LCreated; LBusy; LCreated].
 Proof. exact quota_no_recheck_witness. Qed.
 Print Assumptions C17_quota_no_recheck_witness.
+
+(* ---- the slot is held until the connection is CLOSED ---- *)
+
+(* `live` in C17_mapping_cap_never_exceeds counts OPEN connections: a connection whose tunnel is being closed from outside the
+   copy loop (MClosing: localConn.Close() has not returned) still holds its slot.  Returning the slot before the connections are
+   closed (Tunnel.Close running OnClosed first) is refuted: limit 1, the first connection is closing, a second one arrives and
+   is let in — two open connections *)
+Theorem C17_mapping_release_before_close_refuted :
+  exists sched,
+    let s := run _ _ (mstep_gen true false Current 1) ({| counter := 0; live := 0 |}, [MStart false; MStart false]) sched in
+    live (fst s) = 2%Z /\ snd s = [MClosing; MLive].
+Proof. exact mapping_release_before_close_refuted. Qed.
+Print Assumptions C17_mapping_release_before_close_refuted.
+
+Theorem C17_mapping_close_first_witness :
+  let s := mrun Current 1 {| counter := 0; live := 0 |} [MStart false; MStart false] [0; 0; 0; 0; 1; 1; 1] in
+  fst s = {| counter := 1; live := 1 |} /\ snd s = [MClosing; MRefused].
+Proof. exact mapping_close_first_witness. Qed.
+Print Assumptions C17_mapping_close_first_witness.
+
+(* ---- "active" codes include the ones an activation has claimed but not yet written back as used ---- *)
+
+(* creates of the client (serialised by the `codes` marker: one step each) and activations of its codes (under another
+   client's `mappings` marker, NOT serialised with the creates) in any number and under any schedule: the active codes —
+   claimed ones included, a claim can be given back — never exceed the limit *)
+Theorem C17_quota_claimed_codes_count :
+  forall (max base : nat) (ts : list kpc) (sched : list nat),
+  base <= max -> countb k_is_claimed ts = 0 ->
+  let s := krun true max {| k_active := base; k_claimed := 0 |} ts sched in
+  k_active (fst s) <= max /\ k_claimed (fst s) <= k_active (fst s).
+Proof. exact claim_counted_never_exceeds. Qed.
+Print Assumptions C17_quota_claimed_codes_count.
+
+(* a count that skips claimed codes (NOT the code): limit 1, one active code; its activation claims it, a create sees 0 and is
+   let in — two active codes at that instant *)
+Theorem C17_quota_claim_skipped_refuted :
+  exists sched, let s := krun false 1 {| k_active := 1; k_claimed := 0 |} [KActivate; KCreate] sched in
+                k_active (fst s) = 2 /\ snd s = [KClaimed; KCreated].
+Proof. exact claim_skipped_refuted. Qed.
+Print Assumptions C17_quota_claim_skipped_refuted.
+
+Theorem C17_quota_claim_counted_witness :
+  let s := krun true 1 {| k_active := 1; k_claimed := 0 |} [KActivate; KCreate; KCreate] [0; 1; 0; 2] in
+  fst s = {| k_active := 1; k_claimed := 0 |} /\ snd s = [KUsed; KRefusedK; KCreated].
+Proof. exact claim_counted_witness. Qed.
+Print Assumptions C17_quota_claim_counted_witness.
